@@ -21,12 +21,14 @@ func c11Check(c *hist.Case, r *evid.Rec) []evid.Disc {
 	m := hist.Analyze(run)
 	var ds []evid.Disc
 	const C = "c0"
-	R := 65535
-	for _, a := range c.Actions {
-		if a.Kind == "connect" && a.Client == 0 && a.RecvMax != nil {
-			R = int(*a.RecvMax)
+	R := 65535 // the window of the connection being looked at (each CONNECT declares its own)
+	rOf := func(peer int) int {
+		if cp := run.Peers[peer].Connect; cp != nil && cp.Props.ReceiveMaximum != nil {
+			return int(*cp.Props.ReceiveMaximum)
 		}
+		return 65535
 	}
+	resentIDs := map[int]map[uint16]bool{} // per connection: identifiers resent while its CONNECT was processed
 	inTransit := map[int]map[uint16]bool{} // per connection: identifiers of QoS>0 PUBLISH received and not completed
 	entitled := map[int]bool{}
 	leaked := map[int]bool{}
@@ -107,8 +109,13 @@ func c11Check(c *hist.Case, r *evid.Rec) []evid.Disc {
 					inTransit[o.Peer] = map[uint16]bool{}
 				}
 				inTransit[o.Peer][o.P.PacketID] = true
+				R = rOf(o.Peer)
 				if s.A.Kind == "connect" {
 					resent[o.Peer] = true
+					if resentIDs[o.Peer] == nil {
+						resentIDs[o.Peer] = map[uint16]bool{}
+					}
+					resentIDs[o.Peer][o.P.PacketID] = true
 				} else if at, ok := pubStep[hist.TagOf(o.P.Payload)]; ok && at != s.I {
 					// released late: the broker forgets this message as soon as it is written (the open finding). From here
 					// on this connection's bookkeeping is off: a QoS 1 one never gives its quota back, and the freed
@@ -120,8 +127,15 @@ func c11Check(c *hist.Case, r *evid.Rec) []evid.Disc {
 				if !(p.AutoAck && s.A.Kind == "drain") && len(inTransit[o.Peer]) > R {
 					sig := "C11-receive-maximum-exceeded"
 					if s.A.Kind == "connect" || resent[o.Peer] {
-						// resends on a resumed connection are not charged against the (freshly reset) send quota
-						sig = "C11-receive-maximum-exceeded-by-resend-after-reconnect"
+						// resends on a resumed connection are not charged against the (freshly reset) send quota: that
+						// explains an excess of at most the number of messages resent on this connection, no more (seeded change
+						// C11-e: a resumed connection that keeps the previous connection's larger window)
+						// (acknowledged or not: the acknowledgement of a resend hands back a unit that was never taken)
+						if s.A.Kind == "connect" || len(inTransit[o.Peer]) <= R+len(resentIDs[o.Peer]) {
+							sig = "C11-receive-maximum-exceeded-by-resend-after-reconnect"
+						} else {
+							sig = "C11-receive-maximum-exceeded-beyond-the-resends"
+						}
 					}
 					if leaked[o.Peer] {
 						sig = "C11-receive-maximum-exceeded-after-clients-own-pubrel"
@@ -137,6 +151,10 @@ func c11Check(c *hist.Case, r *evid.Rec) []evid.Disc {
 			case refmqtt.PUBREL:
 				if s.A.Kind == "connect" {
 					resent[o.Peer] = true // an open exchange inherited by a connection whose quotas were reset to their maxima
+					if resentIDs[o.Peer] == nil {
+						resentIDs[o.Peer] = map[uint16]bool{}
+					}
+					resentIDs[o.Peer][o.P.PacketID] = true // its PUBCOMP hands back a unit this connection never took
 				}
 			case refmqtt.DISCONNECT:
 				if o.P.ReasonCode == 0x93 {
@@ -244,7 +262,13 @@ func c11Gen(rt *rapid.T) *hist.Case {
 			return hist.Action{Kind: "pubrel", Client: 0, Index: rapid.IntRange(0, 3).Draw(rt, "ridx")}
 		case 11:
 			if reconnect {
-				return con
+				// each CONNECT declares its own window: the same, a smaller or a larger one
+				rc := con
+				if rapid.Bool().Draw(rt, "new-window") {
+					w := uint16(rapid.IntRange(1, 4).Draw(rt, "recvmax2"))
+					rc.RecvMax = &w
+				}
+				return rc
 			}
 			return hist.Action{Kind: "publish", Client: 0, Topic: "u/x", QoS: 0}
 		default:
@@ -257,7 +281,7 @@ func c11Gen(rt *rapid.T) *hist.Case {
 }
 
 func TestC11(t *testing.T) {
-	r := evid.New("C11", "rapid: a v5 client with Receive Maximum 1..4 (or absent) on a QoS 2 subscription against a server Receive Maximum 1..4; bursts of QoS 0/1/2 publishes towards the client and from the client; the client acknowledges in generated order and timing (one acknowledgement in four carries a failure reason code) but never has more unfinished QoS 1/2 publishes of its own than the server's Receive Maximum (enforced by the executor), sends QoS 0 freely, also publishes QoS 1/2 to a topic its write permission denies (refused but acknowledged), optionally reconnects with session present; the history ends with the client acknowledging everything promptly; oracle: (a) unacknowledged QoS>0 PUBLISH packets on a connection never exceed the declared Receive Maximum, (b) no DISCONNECT 0x93 and no broker-side close, (c) after the prompt-acknowledgement phase every entitled QoS>0 message has been transmitted; non-trivial = the outbound window was full at least once; distinct by history")
+	r := evid.New("C11", "rapid: a v5 client with Receive Maximum 1..4 (or absent) on a QoS 2 subscription against a server Receive Maximum 1..4; bursts of QoS 0/1/2 publishes towards the client and from the client; the client acknowledges in generated order and timing (one acknowledgement in four carries a failure reason code) but never has more unfinished QoS 1/2 publishes of its own than the server's Receive Maximum (enforced by the executor), sends QoS 0 freely, also publishes QoS 1/2 to a topic its write permission denies (refused but acknowledged), optionally reconnects with session present (each CONNECT with its own Receive Maximum); the history ends with the client acknowledging everything promptly; oracle: (a) unacknowledged QoS>0 PUBLISH packets on a connection never exceed the declared Receive Maximum, (b) no DISCONNECT 0x93 and no broker-side close, (c) after the prompt-acknowledgement phase every entitled QoS>0 message has been transmitted; non-trivial = the outbound window was full at least once; distinct by history")
 	defer r.Finish(t)
 	if evid.ReplayMode() {
 		evid.Replay(t, r, replayPath(), c11Check)
